@@ -106,13 +106,20 @@ def edit_st(isa, cfg):
 _ST_CACHE = {}
 
 
-def case_st(tier, pairs=None, cfg=True, max_edits=None, min_edits=1):
+def scope_edit_st(isa):
+    ords = [n for n in _ord_names(isa) if n in ("nop", "nop2", "xor", "push", "pop", "mark")]
+    p = st.fixed_dictionaries({"toks": st.lists(insn_st(isa, ords), min_size=1, max_size=2)})
+    return st.fixed_dictionaries({"op": st.just("scope"), "kind": st.sampled_from(["all", "single", "single"]),
+                                  "pos": st.sampled_from(["entry", "exit"]), "b": _small, "patch": p})
+
+
+def case_st(tier, pairs=None, cfg=True, max_edits=None, min_edits=1, scopes=False):
     pairs = pairs or I.PAIRS
     nb = 6 if tier == "quick" else 10
     ne = max_edits or (5 if tier == "quick" else 9)
 
     def build(pair):
-        key = (pair, tier, cfg, ne, min_edits)
+        key = (pair, tier, cfg, ne, min_edits, scopes)
         if key not in _ST_CACHE:
             _ST_CACHE[key] = _build(pair)
         return _ST_CACHE[key]
@@ -132,7 +139,8 @@ def case_st(tier, pairs=None, cfg=True, max_edits=None, min_edits=1):
             "sections": secs,
             "funcs": st.booleans(),
             "entry": st.one_of(st.none(), _small),
-            "edits": st.lists(edit_st(isa, use_cfg), min_size=min_edits, max_size=ne),
+            "edits": st.lists((st.one_of(edit_st(isa, use_cfg), edit_st(isa, use_cfg), scope_edit_st(isa))
+                               if scopes else edit_st(isa, use_cfg)), min_size=min_edits, max_size=ne),
         })
 
     return st.sampled_from(pairs).flatmap(build)
@@ -191,6 +199,7 @@ class Edit:
     proxy: bool = False
     patch: Optional[dict] = None
     raw: Optional[bytes] = None
+    scope: Optional[tuple] = None   # (kind, position) for register_insert
 
 
 class Case:
@@ -347,8 +356,46 @@ class Case:
         self.edits: List[Edit] = []
         self.dropped = {"overlap": 0, "touching_after": 0, "after_full_delete": 0}
         taken: Dict[int, list] = {}
+        def conflicts(b, lo, hi):
+            for (s_, t_, r2) in taken.get(b, []):
+                if s_ < t_ and lo < hi:
+                    if s_ < hi and lo < t_:
+                        return "overlap"
+                elif lo == hi and s_ < t_:
+                    if s_ < lo < t_:
+                        return "overlap"
+                    elif lo == s_:
+                        return "touching_after"
+                elif lo < hi and s_ == t_:
+                    if lo < s_ < hi:
+                        return "overlap"
+            return None
+
         for reg, e in enumerate(raw):
             op = e["op"]
+            if op == "scope":
+                code = [bb.gidx for bb in self.blocks if bb.code]
+                if not code:
+                    continue
+                targets = code if e["kind"] == "all" else [code[e["b"] % len(code)]]
+                new = []
+                bad = None
+                for g in targets:
+                    blk = self.blocks[g]
+                    nu = len(blk.units)
+                    if e["pos"] == "entry":
+                        i = 0
+                    else:
+                        i = nu - 1 if blk.units[-1].kind in I.TRANSFER else nu
+                    bad = bad or conflicts(g, i, i)
+                    new.append(Edit(reg, "insert", g, i, 0, patch=e["patch"], scope=(e["kind"], e["pos"], targets[0])))
+                if bad:
+                    self.dropped[bad] += 1
+                    continue
+                for ed in new:
+                    taken.setdefault(ed.b, []).append((ed.i, ed.i, reg))
+                    self.edits.append(ed)
+                continue
             b = e["b"] % len(self.blocks)
             blk = self.blocks[b]
             nu = len(blk.units)
@@ -394,20 +441,17 @@ class Case:
         if not allow_after_full_delete:
             # finding C01-after-full-delete: nothing may sort after a deletion
             # that reaches the end of its block
-            keep = []
+            bad_regs = set()
             for ed in self.edits:
                 nu = len(self.blocks[ed.b].units)
-                bad = False
                 for o in self.edits:
                     if o is ed or o.b != ed.b or o.op != "delete" or o.n == 0:
                         continue
                     if o.i + o.n == nu and (ed.i, ed.reg) > (o.i, o.reg):
-                        bad = True
-                if bad:
-                    self.dropped["after_full_delete"] += 1
-                else:
-                    keep.append(ed)
-            self.edits = keep
+                        bad_regs.add(ed.reg)
+            # (a register_insert scope is dropped as a whole)
+            self.dropped["after_full_delete"] += len(bad_regs)
+            self.edits = [ed for ed in self.edits if ed.reg not in bad_regs]
 
     def byte_off(self, b, i):
         blk = self.blocks[b]
@@ -778,7 +822,20 @@ def functions_of(module):
 
 
 def register(case: Case, built: Built, ctx, record=None, edits=None):
+    from gtirb_rewriting import AllBlocksScope, BlockPosition, SingleBlockScope
+
+    done_scopes = set()
     for ed in sorted(edits if edits is not None else case.edits, key=lambda e: e.reg):
+        if ed.scope is not None:
+            if ed.reg in done_scopes:
+                continue
+            done_scopes.add(ed.reg)
+            pos = BlockPosition.ENTRY if ed.scope[1] == "entry" else BlockPosition.EXIT
+            if ed.scope[0] == "all":
+                ctx.register_insert(AllBlocksScope(pos), make_patch(case, ed, record))
+            else:
+                ctx.register_insert(SingleBlockScope(built.blocks[ed.scope[2]], pos), make_patch(case, ed, record))
+            continue
         blk = built.blocks[ed.b]
         off = case.byte_off(ed.b, ed.i)
         ln = case.byte_off(ed.b, ed.i + ed.n) - off
@@ -921,6 +978,8 @@ def describe(case: Case):
                 out["listing"].append(f"{n}: # (end label)")
     for ed in case.edits:
         d = f"#{ed.reg} {ed.op} block {ed.b} unit {ed.i}" + (f" n={ed.n}" if ed.op != "insert" else "")
+        if ed.scope:
+            d += f" via register_insert({ed.scope[0]}, {ed.scope[1]})"
         if ed.op == "delete" and ed.proxy:
             d += " retarget_to_proxy"
         if ed.patch:
